@@ -399,23 +399,29 @@ func (x *Exec) applyContract(fr *frame, st *State, fc *FuncContract, sig *types.
 		}
 		st.ghost[gname[6:]] = vc.bind("g", v.T)
 	}
-	// Ghost variables a callee's postconditions talk about may be changed by the callee: they get
-	// fresh values constrained only by those postconditions (explicit "opt ghost:" updates aside).
-	gnames := map[string]bool{}
-	for _, e := range fc.Ensures {
-		x.eng.ghostNames(e.Expr, gnames, 0)
-	}
-	var gl []string
-	for n := range gnames {
-		gl = append(gl, n)
-	}
-	sort.Strings(gl)
-	for _, name := range gl {
-		if _, explicit := fc.Opts["ghost:"+name]; explicit {
-			continue
+	// Ghost frame: a callee changes only the ghost variables it declares (modifies ghost(x)), or has
+	// an explicit update for (opt ghost:x expr); a "modifies *" callee may change every ghost variable.
+	{
+		var gl []string
+		if fc.ModAll {
+			for n := range x.eng.ghostSorts {
+				gl = append(gl, n)
+			}
+		} else {
+			for k := range fc.Opts {
+				if strings.HasPrefix(k, "modghost:") {
+					gl = append(gl, k[9:])
+				}
+			}
 		}
-		if gs, ok := x.eng.ghostSorts[name]; ok {
-			st.ghost[name] = vc.freshConst("gc_"+name, x.eng.smtSort(gs, vc.ar.Mode))
+		sort.Strings(gl)
+		for _, name := range gl {
+			if _, explicit := fc.Opts["ghost:"+name]; explicit {
+				continue
+			}
+			if gs, ok := x.eng.ghostSorts[name]; ok {
+				st.ghost[name] = vc.freshConst("gc_"+name, x.eng.smtSort(gs, vc.ar.Mode))
+			}
 		}
 	}
 	penv := &SpecEnv{x: x, st: st, old: pre, vars: post, inCall: true, pkg: env.pkg, pol: 1}
